@@ -1201,11 +1201,13 @@ class MultiReader(IndexReader):
         crs = []
         doc_offsets = []
         for i, r in enumerate(self.readers):
-            if r.has_column(fieldname):
-                cr = r.column_reader(fieldname, column=column, reverse=reverse,
-                                     translate=translate)
-                crs.append(cr)
-                doc_offsets.append(self.doc_offsets[i])
+            # Every segment takes part, so that rows stay aligned with the
+            # document offsets: a segment without the column file gives an
+            # EmptyColumnReader (all rows are the default)
+            cr = r.column_reader(fieldname, column=column, reverse=reverse,
+                                 translate=translate)
+            crs.append(cr)
+            doc_offsets.append(self.doc_offsets[i])
         return columns.MultiColumnReader(crs, doc_offsets)
 
     # Per doc methods
